@@ -89,7 +89,19 @@ type Scripted struct {
 	I      int
 	OnPull func(i int, ev *Event) // observation point for trace monitors
 	Err    error                  // returned instead of io.EOF at the end when set
+	// EndNodes: what accompanies an end event (the Parser contract says nothing about it, the
+	// store must not look at it): 0 nil, 1 the element's own start node again, 2 a separate
+	// end-tag value of another type that also implements node.Element (as encoding/xml's
+	// StartElement/EndElement pair would), 3 a text node
+	EndNodes int
+	open     []node.Node
 }
+
+// EEndTag is a distinct end-tag value.
+type EEndTag struct{ S, L string }
+
+func (e EEndTag) Space() string { return e.S }
+func (e EEndTag) Local() string { return e.L }
 
 func (s *Scripted) Pull() (node.Node, bool, error) {
 	if s.I >= len(s.Evs) {
@@ -107,7 +119,25 @@ func (s *Scripted) Pull() (node.Node, bool, error) {
 	}
 	s.I++
 	if ev.End {
+		var start node.Node
+		if n := len(s.open); n > 0 {
+			start = s.open[n-1]
+			s.open = s.open[:n-1]
+		}
+		if el, ok := start.(EElem); ok {
+			switch s.EndNodes {
+			case 1:
+				return el, true, nil
+			case 2:
+				return EEndTag{el.S, el.L}, true, nil
+			case 3:
+				return EText{V: "ignored"}, true, nil
+			}
+		}
 		return nil, true, nil
+	}
+	if _, ok := ev.Node.(EElem); ok {
+		s.open = append(s.open, ev.Node)
 	}
 	return ev.Node, false, nil
 }
